@@ -75,6 +75,7 @@ def gen_stats_graph(rnd):
 
 class H(Harness):
     ID = 'C12'
+    ANCHOR_FILES = ['epydemic/monitor.py', 'epydemic/networkdynamics.py', 'epydemic/stochasticdynamics.py', 'epydemic/synchronousdynamics.py', 'epydemic/statistics.py']
     TIE_IMPORT = 'From EpyV Require Import Model.Kernel Model.Loci Model.Compart Tie.Compart Tie.C12.\nOpen Scope Q_scope.'
     CHECK_FN = 'EpyV.Tie.C12.check_case'
     VO_TARGETS = ['Properties/C12.vo', 'Tie/C12.vo']
